@@ -22,8 +22,8 @@ done
 for p in sensitivity/s15-*.diff; do
   case "$p" in *silent*) run C15 "$p" 0 0;; *) run C15 "$p" 1 0;; esac
 done
-for p in benign/b14-*.diff; do run C14 "$p" 0 0; done
-for p in benign/b15-*.diff; do run C15 "$p" 0 0; done
+for p in benign/b14*-r*.diff; do run C14 "$p" 0 0; done
+for p in benign/b15*-r*.diff; do run C15 "$p" 0 0; done
 for d in seeded/*/; do
   m="$d/meta.json"; prop=$(python3 -c "import json,sys; print(json.load(open('$m'))['property'])")
   miri=$(python3 -c "import json,sys; print(json.load(open('$m')).get('needs_miri_runs',0))")
